@@ -1,3 +1,4 @@
 import DnsModel.Basic
 import DnsModel.Name
 import DnsModel.Labels
+import DnsModel.Msg
